@@ -8,7 +8,7 @@ import warnings
 import numpy as np
 import scipy.linalg as la
 
-from vf.core import Result
+from vf.core import jsame, Result
 from vf.ref import cb_ref
 
 PROP = "C15"
@@ -312,7 +312,7 @@ def _run(sh, res):
     m = check_pair(sh["src"], sh["load"], sh["damp"], nb, res)
     if "bs" in sh:
         keys = [k for k in ("bs", "bl", "fs", "fl", "routes", "zero_hz") if k in sh]
-        m = [x for x in m if all(x[0].get(k) == sh[k] for k in keys)]
+        m = [x for x in m if all(jsame(x[0].get(k), sh[k]) for k in keys)]
     return m
 
 
